@@ -788,12 +788,30 @@ def render_unit(idx, tmpl_path, root, must_fail=False):
                 j += 1
             block[0] = block[0].strip()
             fs = parse_fn_directive(block, defaults)
+            is_trait_impl = norm(fs.anchor).startswith("impl") and " for " in norm(fs.anchor)
+            twin_copy = False
             if must_fail and not fs.sig_only and not fs.assume and not fs.notwin:
-                fs.ensures = list(fs.ensures) + ["false"]
+                if is_trait_impl or norm(fs.anchor).startswith("trait"):
+                    fs.ensures = list(fs.ensures) + ["false"]       # leaf trait-impl methods: in place
+                else:
+                    twin_copy = True
             txt = render_fn(idx, fs, table, ctx)
             first = len(out) + 1
             out.extend(txt.split("\n"))
             linemap.append((first, len(out), table[-1]["item"]))
+            if twin_copy:
+                # vacuity guard: a renamed copy of the same real body with `ensures false` added; callers keep
+                # seeing the original contract, so a rejected copy shows the precondition is satisfiable
+                import copy
+                fs2 = copy.deepcopy(fs)
+                fs2.newname = (fs.newname or fs.name) + "__twin"
+                fs2.ensures = list(fs.ensures) + ["false"]
+                scratch = []
+                txt2 = render_fn(idx, fs2, scratch, ctx)
+                first = len(out) + 1
+                out.extend(txt2.split("\n"))
+                linemap.append((first, len(out), table[-1]["item"] + " [twin]"))
+                table[-1]["has_twin"] = True
             i = j + 1
             continue
         if s.startswith("//@nbits "):
@@ -860,8 +878,6 @@ def render_unit(idx, tmpl_path, root, must_fail=False):
             ty = " ".join(rewrite_tokens(toks[k2 + 3:eqi], rules, ctx_opts(ctx)))
             init = emit(rewrite_tokens(toks[eqi + 1:it.t1], rules, dict(ctx_opts(ctx), in_body=True)))
             fs = parse_fn_directive(["fn %s :: %s" % (anchor, cname)] + block[1:], defaults)
-            if must_fail and "assume" not in copts:
-                fs.ensures = list(fs.ensures) + ["false"]
             contract = ""
             if fs.ensures:
                 contract = "\n    ensures " + ",\n        ".join(fs.ensures) + ","
@@ -878,6 +894,12 @@ def render_unit(idx, tmpl_path, root, must_fail=False):
                               "rules": sorted(rules.fired), "props": fs.props, "src_line": idx.line_of(it.t0),
                               "n_requires": 0, "n_ensures": len(fs.ensures), "fn_name": cname})
             linemap.append((first, len(out), item_name))
+            if must_fail and "assume" not in copts:
+                first = len(out) + 1
+                contract2 = "\n    ensures " + ",\n        ".join(list(fs.ensures) + ["false"]) + ","
+                out.extend(("pub fn %s__twin() -> (r: %s)%s\n{\n%s\n%s\n}" % (cname, ty, contract2, fs.head.strip(), init)).split("\n"))
+                linemap.append((first, len(out), item_name + " [twin]"))
+                table[-1]["has_twin"] = True
             i = j + 1
             continue
         out.append(ln)
